@@ -242,6 +242,21 @@ pub fn run(ctx: &Ctx) -> i32 {
                     };
                     let exp = rf.eval_rule(&ast, doc);
                     rep.evaluations += 1;
+                    // the optimised rule addresses the same value (positive forms only: beneath a
+                    // negation false-vs-missing is C01's open subject)
+                    if form != "not(dotted)" {
+                        if let Some(want) = refi::verdict(exp) {
+                            for sw in [eng::Sw(15), eng::Sw(2), eng::Sw(10)] {
+                                rep.evaluations += 1;
+                                if let Ok(o) = eng::optimise(&rule, sw) {
+                                    if eng::matches(&o, &ymap).unwrap_or(want) != want {
+                                        rep.violation("rule", &format!("c10-rule-opt:{}", form), &format!("{} rule for path {:?} on {}: optimised [{}] verdict is {} , the path semantics give {}", form, key, doc.to_json_text(), sw.name(), !want, want), mon::case(&text, doc, Some(sw), json!(want), json!(!want), json!({"form": form})));
+                                        break;
+                                    }
+                                }
+                            }
+                        }
+                    }
                     match eng::solve3(&rule, &ymap) {
                         Ok(g) => {
                             if refi::from_code(g) & exp == 0 {
@@ -407,7 +422,7 @@ pub fn run(ctx: &Ctx) -> i32 {
         // wrap in 8 / 16 / 32 bits), field names that are prefixes, suffixes or case variants of each
         // other or contain a space, a dash or a multi-byte character; every leaf uniquely labelled
         if shard == 2 % shards {
-            let names = ["a", "ab", "a1", "A", "\u{e9}", "a\u{e9}", "b", "a b", "a-b", "a_b", "ba", "aa"];
+            let names = ["a", "ab", "a1", "A", "\u{e9}", "a\u{e9}", "b", "a b", "a-b", "a_b", "ba", "aa", "0", "1", "10"];
             let indices: Vec<usize> = vec![0, 1, 2, 3, 7, 8, 9, 10, 11, 12, 13, 15, 16, 99, 100, 255, 256, 257, 65536, 65537, 4294967296, 4294967297, 4294967306];
             let mut lbl = 0u64;
             let mut leaf = |pre: &str| -> DVal {
@@ -502,6 +517,16 @@ pub fn run(ctx: &Ctx) -> i32 {
                         let exp = rf.eval_rule(&ast, doc);
                         rep.evaluations += 1;
                         rep.count("wide_rule_cells");
+                        if let Some(want) = refi::verdict(exp) {
+                            for sw in [eng::Sw(15), eng::Sw(2)] {
+                                if let Ok(o) = eng::optimise(&rule, sw) {
+                                    if eng::matches(&o, &ymap).unwrap_or(want) != want {
+                                        rep.violation("rule", &format!("c10-rule-wide-opt:{}", form), &format!("{} rule for path {:?} on {}: optimised [{}] verdict is {} , the path semantics give {}", form, key, doc.to_json_text(), sw.name(), !want, want), mon::case(&text, doc, Some(sw), json!(want), json!(!want), json!({"form": form})));
+                                        break;
+                                    }
+                                }
+                            }
+                        }
                         match eng::solve3(&rule, &ymap) {
                             Ok(g) => {
                                 if refi::from_code(g) & exp == 0 {
@@ -561,7 +586,7 @@ pub fn run(ctx: &Ctx) -> i32 {
         ctx,
         rep,
         Meta {
-            rule: format!("complete enumeration: all {} well-formed paths of depth <= 4 over names {{a,b}} with optional index in {{0,1,2}} per segment x {} documents of a shape family of depth <= 4 (scalars, null, empty and non-empty objects and arrays, arrays of objects, uniquely labelled leaves) through five find() implementations (yaml mapping, json map, json value, HashMap of std types, hand-written Object with the default find); for sampled (path, document) the rule `path: leaf`, `path: *`, `not(path): leaf` and the nested-mapping spelling are compared with the reference interpreter, and dotted vs nested spelling with each other; plus arbitrary key strings for totality (no panic, nothing fabricated). non-trivial = path failing at its last or second-to-last step or succeeding at depth >= 2; distinct by (path, document)", all_paths.len(), docs.len()),
+            rule: format!("complete enumeration: all {} well-formed paths of depth <= 4 over names {{a,b}} with optional index in {{0,1,2}} per segment x {} documents of a shape family of depth <= 4 (scalars, null, empty and non-empty objects and arrays, arrays of objects, uniquely labelled leaves) through five find() implementations, plus long arrays (indices up to 13 and far beyond, incl. values that wrap in 8/16/32 bits) and sibling field names that are prefixes / case variants / digit strings of each other (yaml mapping, json map, json value, HashMap of std types, hand-written Object with the default find); for sampled (path, document) the rule `path: leaf`, `path: *`, `not(path): leaf` and the nested-mapping spelling are compared with the reference interpreter (the positive forms also after optimisation with three switch sets), and dotted vs nested spelling with each other; plus arbitrary key strings for totality (no panic, nothing fabricated). non-trivial = path failing at its last or second-to-last step or succeeding at depth >= 2; distinct by (path, document)", all_paths.len(), docs.len()),
             exhaustive: true,
             assumptions: vec!["multi-index segments (a[0][1]) and signed indices are not well-formed paths: totality only".into()],
             min_nontrivial: 1000,
